@@ -133,6 +133,13 @@ func verifIteU8(c bool, a, b uint8) uint8 {
 	return b
 }
 
+func verifIteU16(c bool, a, b uint16) uint16 {
+	if c {
+		return a
+	}
+	return b
+}
+
 func verifReach(label string) {
 	verifRT.mu.Lock()
 	verifRT.Reached[label] = true
